@@ -153,7 +153,8 @@ def run_check(prop, tier, seed, replay=None, nshards=None, keep=False):
     for fid, (e, n, v) in sorted(known_hit.items()):
         lines.append("KNOWN-FINDING: property=%s %s [%s; %d witnesses this run]"
                      % (prop, e["what"], fid, n))
-    rdir = os.path.join(HERE, "replays", prop)
+    rdir = os.path.join(os.environ.get("VT_REPLAY_DIR",
+                                       os.path.join(HERE, "replays")), prop)
     for dg, vs in sorted(unknown.items()):
         os.makedirs(rdir, exist_ok=True)
         path = os.path.join(rdir, dg + ".json")
@@ -198,8 +199,12 @@ def run_check(prop, tier, seed, replay=None, nshards=None, keep=False):
         "violations": len(unknown),
     }
     if not replay:
-        os.makedirs(os.path.join(HERE, "evidence"), exist_ok=True)
-        with open(os.path.join(HERE, "evidence", prop + ".json"), "w") as f:
+        # runs against a scratch checkout (seeded-change evaluation) must not
+        # overwrite the evidence of the real tree
+        evdir = os.environ.get("VT_EVIDENCE_DIR",
+                               os.path.join(HERE, "evidence"))
+        os.makedirs(evdir, exist_ok=True)
+        with open(os.path.join(evdir, prop + ".json"), "w") as f:
             json.dump(ev, f, indent=1, sort_keys=True)
     for ln in lines:
         print(ln)
